@@ -379,11 +379,17 @@ Qed.
 
 Lemma remove_node_atomic : forall sd d pivot cur d' e, remove_node sd d pivot cur = (d', Err e) -> d' = d.
 Proof.
-  intros until e. unfold remove_node. destruct sd.
+  intros until e. unfold remove_node. cbv zeta. destruct sd.
   - destruct (st_get_next _ _) as [[t|]|]; try (intro H; inversion H; reflexivity).
-    destruct (st_remove _ _ _); intro H; inversion H; reflexivity.
+    destruct (t =? fst cur).
+    + destruct (st_remove _ _ _); intro H; inversion H; reflexivity.
+    + destruct (split_at _ _) as [[[a x] b]|]; [|intro H; inversion H; reflexivity].
+      destruct (st_remove _ _ _); intro H; inversion H; reflexivity.
   - destruct (st_get_prev _ _) as [[t|]|]; try (intro H; inversion H; reflexivity).
-    destruct (st_remove _ _ _); intro H; inversion H; reflexivity.
+    destruct (t =? snd cur).
+    + destruct (st_remove _ _ _); intro H; inversion H; reflexivity.
+    + destruct (split_at _ _) as [[[a x] b]|]; [|intro H; inversion H; reflexivity].
+      destruct (st_remove _ _ _); intro H; inversion H; reflexivity.
 Qed.
 
 Lemma optional_set_atomic : forall sd seps s pivot same value fr s' dl e,
@@ -429,36 +435,161 @@ Proof.
   rewrite insert_before_mid; [reflexivity|eapply nodup_mid_l; eassumption|assumption].
 Qed.
 
-Lemma remove_left_frame : forall P p S Q cur,
-  NoDup (ids (P ++ p :: S ++ Q)) -> S <> [] -> snd cur = tid (last S dft) ->
-  remove_node SLeft (P ++ p :: S ++ Q) (tid p) cur = (P ++ p :: Q, Ok tt).
+(* the tokens of G (between the pivot and the child) stay exactly when the child touches what lies on its other
+   side; `touch` = _touches(...) evaluated on that side *)
+Lemma list_eq_dec_nil : forall {A} (l : list A), {l = []} + {l <> []}.
+Proof. intros A [|x l]; [left; reflexivity|right; discriminate]. Qed.
+
+Lemma nodup_ids_neq : forall A x B y C, NoDup (ids (A ++ x :: B ++ y :: C)) -> tid x <> tid y.
 Proof.
-  intros P p S Q cur Hnd Hne Hl. unfold remove_node.
-  rewrite get_next_mid by (eapply nodup_mid_l; exact Hnd).
-  destruct S as [|s0 S']; [congruence|]. cbn [app hd_opt option_map]. rewrite Hl.
-  replace (P ++ p :: s0 :: S' ++ Q) with ((P ++ [p]) ++ (s0 :: S') ++ Q) by (rewrite <- app_assoc; reflexivity).
-  change (tid s0) with (tid (hd dft (s0 :: S'))).
-  rewrite remove_span.
-  - rewrite <- app_assoc. reflexivity.
-  - rewrite <- app_assoc. exact Hnd.
-  - discriminate.
+  intros A x B y C H E. apply nodup_mid_r in H. apply H. rewrite ids_app. apply in_or_app. right. left. now symmetry.
 Qed.
 
-Lemma remove_right_frame : forall P S p Q cur,
-  NoDup (ids (P ++ S ++ p :: Q)) -> S <> [] -> fst cur = tid (hd dft S) ->
-  remove_node SRight (P ++ S ++ p :: Q) (tid p) cur = (P ++ p :: Q, Ok tt).
+Lemma remove_left_frame : forall P p G X Q cur,
+  NoDup (ids (P ++ p :: G ++ X ++ Q)) -> X <> [] -> fst cur = tid (hd dft X) -> snd cur = tid (last X dft) ->
+  remove_node SLeft (P ++ p :: G ++ X ++ Q) (tid p) cur =
+    (P ++ p :: (if touches true Q then G else []) ++ Q, Ok tt).
 Proof.
-  intros P S p Q cur Hnd Hne Hf. unfold remove_node.
-  replace (P ++ S ++ p :: Q) with ((P ++ S) ++ p :: Q) by (rewrite <- app_assoc; reflexivity).
-  rewrite get_prev_mid by (eapply nodup_mid_l; rewrite <- app_assoc; exact Hnd).
-  destruct (exists_last Hne) as [S' [l El]]. subst S.
-  rewrite app_assoc, last_opt_snoc. cbn [option_map]. rewrite Hf.
-  replace (((P ++ S') ++ [l]) ++ p :: Q) with (P ++ (S' ++ [l]) ++ p :: Q)
-    by (repeat rewrite <- app_assoc; reflexivity).
-  replace (tid l) with (tid (last (S' ++ [l]) dft)) by (now rewrite last_last).
-  rewrite remove_span; [reflexivity|exact Hnd|].
-  destruct S'; discriminate.
+  intros P p G X Q cur Hnd Hne Hf Hl. unfold remove_node. cbv zeta.
+  rewrite get_next_mid by (eapply nodup_mid_l; exact Hnd).
+  destruct G as [|g0 G'].
+  - (* no separators: first is current.first_token *)
+    destruct X as [|x0 X']; [congruence|]. cbn [app hd_opt option_map]. rewrite Hf. cbn [hd]. rewrite Z.eqb_refl.
+    rewrite Hl. change (tid x0) with (tid (hd dft (x0 :: X'))).
+    change (P ++ p :: x0 :: X' ++ Q) with (P ++ [p] ++ (x0 :: X') ++ Q). rewrite (app_assoc P [p]).
+    rewrite remove_span; [|rewrite <- app_assoc; exact Hnd|discriminate].
+    rewrite <- app_assoc. destruct (touches true Q); reflexivity.
+  - cbn [app hd_opt option_map].
+    destruct (exists_last Hne) as [X' [l El]].
+    assert (Hlast : last X dft = l) by (rewrite El; apply last_last).
+    assert (Hneq : tid g0 =? fst cur = false).
+    { apply Z.eqb_neq. rewrite Hf. destruct X as [|x0 X0]; [congruence|]. cbn [hd].
+      apply (nodup_ids_neq (P ++ [p]) g0 G' x0 (X0 ++ Q)). rewrite <- app_assoc. exact Hnd. }
+    rewrite Hneq.
+    assert (Esp : split_at (snd cur) (P ++ p :: (g0 :: G') ++ X ++ Q) = Some (P ++ p :: (g0 :: G') ++ X', l, Q)).
+    { rewrite Hl, Hlast, El.
+      replace (P ++ p :: (g0 :: G') ++ (X' ++ [l]) ++ Q) with ((P ++ p :: (g0 :: G') ++ X') ++ l :: Q)
+        by (repeat (rewrite <- app_assoc; cbn [app]); reflexivity).
+      apply split_at_mid. eapply nodup_mid_l.
+      replace ((P ++ p :: (g0 :: G') ++ X') ++ l :: Q) with (P ++ p :: (g0 :: G') ++ X ++ Q)
+        by (rewrite El; repeat (rewrite <- app_assoc; cbn [app]); reflexivity).
+      exact Hnd. }
+    cbn [app] in Esp. rewrite Esp.
+    destruct (touches true Q).
+    + (* the separators stay *)
+      rewrite Hf, Hl.
+      replace (P ++ p :: g0 :: G' ++ X ++ Q) with ((P ++ p :: g0 :: G') ++ X ++ Q)
+        by (rewrite <- app_assoc; reflexivity).
+      rewrite remove_span; [|rewrite <- app_assoc; exact Hnd|exact Hne].
+      rewrite <- app_assoc. reflexivity.
+    + rewrite Hl.
+      replace (last X dft) with (last ((g0 :: G') ++ X) dft)
+        by (rewrite El, app_assoc, !last_last; reflexivity).
+      change (tid g0) with (tid (hd dft ((g0 :: G') ++ X))).
+      replace (P ++ p :: g0 :: G' ++ X ++ Q) with ((P ++ [p]) ++ ((g0 :: G') ++ X) ++ Q)
+        by (repeat (rewrite <- app_assoc; cbn [app]); reflexivity).
+      rewrite remove_span; [|repeat (rewrite <- app_assoc; cbn [app]); exact Hnd|discriminate].
+      rewrite <- app_assoc. reflexivity.
 Qed.
+
+Lemma last_opt_app : forall (A B : list tok), B <> [] -> last_opt (A ++ B) = Some (last B dft).
+Proof.
+  intros A B HB. destruct (exists_last HB) as [B' [l El]]. subst B. now rewrite app_assoc, last_opt_snoc, last_last.
+Qed.
+
+Lemma remove_right_frame : forall P X G p Q cur,
+  NoDup (ids (P ++ X ++ G ++ p :: Q)) -> X <> [] -> fst cur = tid (hd dft X) -> snd cur = tid (last X dft) ->
+  remove_node SRight (P ++ X ++ G ++ p :: Q) (tid p) cur =
+    (P ++ (if touches false (rev P) then G else []) ++ p :: Q, Ok tt).
+Proof.
+  intros P X G p Q cur Hnd Hne Hf Hl. unfold remove_node. cbv zeta.
+  assert (Ed : P ++ X ++ G ++ p :: Q = (P ++ X ++ G) ++ p :: Q) by (repeat rewrite <- app_assoc; reflexivity).
+  assert (Eprev : st_get_prev (tid p) (P ++ X ++ G ++ p :: Q) = Ok (option_map tid (last_opt (P ++ X ++ G)))).
+  { rewrite Ed. apply get_prev_mid. eapply nodup_mid_l; rewrite <- Ed; exact Hnd. }
+  rewrite Eprev. clear Eprev Ed.
+  destruct (list_eq_dec_nil G) as [EG|HG].
+  - (* no separators: last is current.last_token *)
+    subst G. rewrite app_nil_r, (last_opt_app P X Hne). cbn [option_map app].
+    rewrite Hl, Z.eqb_refl, Hf.
+    rewrite remove_span; [|exact Hnd|exact Hne]. destruct (touches false (rev P)); reflexivity.
+  - rewrite (app_assoc P X G), (last_opt_app (P ++ X) G HG). cbn [option_map].
+    destruct (exists_last Hne) as [X' [l El]]. destruct (exists_last HG) as [G' [gl Eg]].
+    assert (Hlast : last X dft = l) by (rewrite El; apply last_last).
+    assert (Hglast : last G dft = gl) by (rewrite Eg; apply last_last).
+    assert (Hneq : tid (last G dft) =? snd cur = false).
+    { apply Z.eqb_neq. rewrite Hl, Hlast, Hglast. intro E. symmetry in E. revert E.
+      apply (nodup_ids_neq (P ++ X') l G' gl (p :: Q)).
+      replace ((P ++ X') ++ l :: G' ++ gl :: p :: Q) with (P ++ X ++ G ++ p :: Q)
+        by (rewrite El, Eg; repeat (rewrite <- app_assoc; cbn [app]); reflexivity).
+      exact Hnd. }
+    rewrite Hneq.
+    assert (Esp : split_at (fst cur) (P ++ X ++ G ++ p :: Q) = Some (P, hd dft X, tl X ++ G ++ p :: Q)).
+    { rewrite Hf. destruct X as [|x0 X0]; [congruence|]. cbn [hd tl app]. apply split_at_mid.
+      eapply nodup_mid_l. exact Hnd. }
+    rewrite Esp.
+    destruct (touches false (rev P)).
+    + rewrite Hf, Hl. rewrite remove_span; [reflexivity|exact Hnd|exact Hne].
+    + rewrite Hf.
+      replace (hd dft X) with (hd dft (X ++ G)) by (destruct X; [congruence|reflexivity]).
+      replace (last G dft) with (last (X ++ G) dft) by (rewrite Eg, app_assoc, !last_last; reflexivity).
+      rewrite (app_assoc X G). rewrite remove_span; [reflexivity|rewrite <- app_assoc; exact Hnd|].
+      intro E. apply app_eq_nil in E. destruct E. contradiction.
+Qed.
+
+(* ---- what the repaired _remove_node is for: the separators that lay between the pivot and the removed child
+        still lie between the pivot and the token the child touched ------------------------------------------ *)
+(* the far neighbour: the nearest token with text beyond the child (zero-width tokens Z skipped) shows, on the
+   side of the child, a character that is neither blank nor a bracket *)
+Definition shows (first_char : bool) (n : tok) : bool := touches first_char [n].
+
+Lemma touches_skip : forall fc Z n R, Forall (fun t => ttext t = []) Z -> touches fc [n] = true ->
+  touches fc (Z ++ n :: R) = true.
+Proof.
+  intros fc Z n R HZ Hn. induction HZ as [|z Z Hz _ IH]; cbn [app touches] in *.
+  - destruct (ttext n); [discriminate|exact Hn].
+  - rewrite Hz. exact IH.
+Qed.
+
+Theorem remove_left_keeps_separation : forall P p G X Z n Q cur b,
+  NoDup (ids (P ++ p :: G ++ X ++ Z ++ n :: Q)) -> X <> [] -> fst cur = tid (hd dft X) -> snd cur = tid (last X dft) ->
+  Forall (fun t => ttext t = []) Z -> shows true n = true -> In b G ->
+  exists B1 B2, G = B1 ++ b :: B2 /\
+    remove_node SLeft (P ++ p :: G ++ X ++ Z ++ n :: Q) (tid p) cur = (P ++ p :: (B1 ++ b :: B2) ++ Z ++ n :: Q, Ok tt).
+Proof.
+  intros P p G X Z n Q cur b Hnd Hne Hf Hl HZ Hn Hb.
+  destruct (in_split _ _ Hb) as (B1 & B2 & EG). exists B1, B2. split; [exact EG|].
+  rewrite (remove_left_frame P p G X (Z ++ n :: Q) cur Hnd Hne Hf Hl).
+  rewrite (touches_skip true Z n Q HZ Hn), EG. reflexivity.
+Qed.
+
+Theorem remove_right_keeps_separation : forall P n Z X G p Q cur b,
+  NoDup (ids ((P ++ n :: Z) ++ X ++ G ++ p :: Q)) -> X <> [] -> fst cur = tid (hd dft X) -> snd cur = tid (last X dft) ->
+  Forall (fun t => ttext t = []) Z -> shows false n = true -> In b G ->
+  exists B1 B2, G = B1 ++ b :: B2 /\
+    remove_node SRight ((P ++ n :: Z) ++ X ++ G ++ p :: Q) (tid p) cur = ((P ++ n :: Z) ++ (B1 ++ b :: B2) ++ p :: Q, Ok tt).
+Proof.
+  intros P n Z X G p Q cur b Hnd Hne Hf Hl HZ Hn Hb.
+  destruct (in_split _ _ Hb) as (B1 & B2 & EG). exists B1, B2. split; [exact EG|].
+  rewrite (remove_right_frame (P ++ n :: Z) X G p Q cur Hnd Hne Hf Hl).
+  assert (Et : touches false (rev (P ++ n :: Z)) = true).
+  { rewrite rev_app_distr. cbn [rev]. rewrite <- app_assoc. cbn [app].
+    apply touches_skip; [apply Forall_rev; exact HZ|exact Hn]. }
+  rewrite Et.
+  rewrite EG. reflexivity.
+Qed.
+
+(* and only then: next to a blank, a bracket or the end of the store the separators go with the child, as before *)
+Theorem remove_left_drops_separators : forall P p G X Q cur,
+  NoDup (ids (P ++ p :: G ++ X ++ Q)) -> X <> [] -> fst cur = tid (hd dft X) -> snd cur = tid (last X dft) ->
+  touches true Q = false ->
+  remove_node SLeft (P ++ p :: G ++ X ++ Q) (tid p) cur = (P ++ p :: Q, Ok tt).
+Proof. intros P p G X Q cur Hnd Hne Hf Hl Ht. rewrite (remove_left_frame P p G X Q cur Hnd Hne Hf Hl), Ht. reflexivity. Qed.
+
+Theorem remove_right_drops_separators : forall P X G p Q cur,
+  NoDup (ids (P ++ X ++ G ++ p :: Q)) -> X <> [] -> fst cur = tid (hd dft X) -> snd cur = tid (last X dft) ->
+  touches false (rev P) = false ->
+  remove_node SRight (P ++ X ++ G ++ p :: Q) (tid p) cur = (P ++ p :: Q, Ok tt).
+Proof. intros P X G p Q cur Hnd Hne Hf Hl Ht. rewrite (remove_right_frame P X G p Q cur Hnd Hne Hf Hl), Ht. reflexivity. Qed.
 
 (* ---- D15: detach cannot tell a free-standing node from a child spanning its parent's store ------ *)
 (* a donor is described by its store and span only; the child of a free-standing parent that spans
